@@ -4,12 +4,12 @@ import os
 from . import common, tlc
 
 
-def write_cfg(name, consts, invariants, properties=()):
+def write_cfg(name, consts, invariants, properties=(), spec="Spec"):
     d = common.scratch("cfg-")
     for f in os.listdir(common.SPEC):
         if f.endswith(".tla"):
             os.symlink(os.path.join(common.SPEC, f), os.path.join(d, f))
-    lines = ["SPECIFICATION Spec", "CONSTANTS"]
+    lines = ["SPECIFICATION " + spec, "CONSTANTS"]
     for k, v in consts.items():
         if isinstance(v, str) and v not in ("TRUE", "FALSE") and not v.startswith('"'):
             lines.append(f"  {k} <- {v}")
@@ -26,11 +26,11 @@ def write_cfg(name, consts, invariants, properties=()):
 
 
 def run(check, module, key, consts, invariants, emit="Emit", simulate=None, depth=None, seed=None,
-        timeout=1500, dedupe=None, workers=None, xmx="6g", tag="G"):
+        timeout=1500, dedupe=None, workers=None, xmx="6g", tag="G", properties=(), spec="Spec"):
     """Run module with the constants; returns (payloads, result)."""
     invs = list(invariants) + ([emit] if emit else [])
     name = "mc_" + key
-    d = write_cfg(name, consts, invs)
+    d = write_cfg(name, consts, invs, properties=properties, spec=spec)
     r = tlc.run(module, cfg=name, workers=workers or (common.NCPU if simulate is None else 1),
                 simulate=simulate, depth=depth, seed=seed, timeout=timeout, cwd=d, xmx=xmx)
     check.add_mc(module + "/" + key + ("/simulate" if simulate else ""), r, consts)
